@@ -12,8 +12,10 @@ they carry the same address.
 Formalisation choices
 * payloads of floats, strings, big-number texts and member names are opaque `String`s (the harness
   sends hex); nothing computes with them except the emptiness test of a string;
-* a nil slice denotes the empty array and a nil map the empty object (the property is about values;
-  Go's deep comparison by content does the same);
+* a nil slice and a nil map are values of their own (`T.nilArr`, `T.nilObj`), different from the empty
+  array and the empty object: strict writers print `null` for them and `reflect.DeepEqual` tells them
+  apart, so "preserved exactly" has to tell them apart too. No parser delivers them; `T.noNil` says
+  that a value holds none;
 * a map is an association list with distinct keys; iteration order is list order (results are
   compared up to member order by the harness, and the theorems hold for every order);
 * times, structs and other non-JSON-like values are outside the model. -/
@@ -56,6 +58,8 @@ inductive T where
   | flt (f : Form) (x : String)
   | str (f : Form) (s : String)
   | big (f : Form) (s : String)
+  | nilArr (f : Form)
+  | nilObj (f : Form)
   | arr (f : Form) (xs : List T)
   | obj (f : Form) (kvs : List (String × T))
   deriving Inhabited
@@ -106,8 +110,8 @@ def denote : Nat → Heap → Ref → Option T
   | 0, _, r => denoteScalar r
   | n + 1, H, r =>
     match r with
-    | .nilArr f => some (.arr f [])
-    | .nilObj f => some (.obj f [])
+    | .nilArr f => some (.nilArr f)
+    | .nilObj f => some (.nilObj f)
     | .arr f a =>
       match H[a]? with
       | some (.arr xs) =>
@@ -165,6 +169,8 @@ mutual
     | .flt g _ => g = f
     | .str g _ => g = f
     | .big _ _ => false
+    | .nilArr g => g = f
+    | .nilObj g => g = f
     | .arr g xs => g = f && T.pureList f xs
     | .obj g kvs => g = f && T.pureKvs f kvs
   def T.pureList (f : Form) : List T → Bool
@@ -176,30 +182,52 @@ mutual
 end
 
 mutual
-  /-- the same value written in form `f` -/
-  def T.toForm (f : Form) : T → T
+  /-- the same value written in form `f`; with `fill` a nil slice / nil map becomes an empty one
+  (what a conversion that `make`s its result does), otherwise it stays nil -/
+  def T.toForm (f : Form) (fill : Bool) : T → T
     | .null => .null
     | .bool _ b => .bool f b
     | .int _ i => .int f i
     | .flt _ x => .flt f x
     | .str _ s => .str f s
     | .big _ s => .big f s
-    | .arr _ xs => .arr f (T.toFormList f xs)
-    | .obj _ kvs => .obj f (T.toFormKvs f kvs)
-  def T.toFormList (f : Form) : List T → List T
+    | .nilArr _ => if fill then .arr f [] else .nilArr f
+    | .nilObj _ => if fill then .obj f [] else .nilObj f
+    | .arr _ xs => .arr f (T.toFormList f fill xs)
+    | .obj _ kvs => .obj f (T.toFormKvs f fill kvs)
+  def T.toFormList (f : Form) (fill : Bool) : List T → List T
     | [] => []
-    | x :: xs => T.toForm f x :: T.toFormList f xs
-  def T.toFormKvs (f : Form) : List (String × T) → List (String × T)
+    | x :: xs => T.toForm f fill x :: T.toFormList f fill xs
+  def T.toFormKvs (f : Form) (fill : Bool) : List (String × T) → List (String × T)
     | [] => []
-    | (k, x) :: xs => (k, T.toForm f x) :: T.toFormKvs f xs
+    | (k, x) :: xs => (k, T.toForm f fill x) :: T.toFormKvs f fill xs
+end
+
+mutual
+  /-- no nil slice and no nil map anywhere -/
+  def T.noNil : T → Bool
+    | .nilArr _ => false
+    | .nilObj _ => false
+    | .arr _ xs => T.noNilList xs
+    | .obj _ kvs => T.noNilKvs kvs
+    | _ => true
+  def T.noNilList : List T → Bool
+    | [] => true
+    | x :: xs => T.noNil x && T.noNilList xs
+  def T.noNilKvs : List (String × T) → Bool
+    | [] => true
+    | (_, x) :: xs => T.noNil x && T.noNilKvs xs
 end
 
 def T.isNull : T → Bool
   | .null => true
   | _ => false
 
-/-- JSON-like simple data: the domain of the property -/
+/-- simple data (nil containers allowed) -/
 abbrev T.Simple (t : T) : Prop := t.pure .simple = true
+
+/-- JSON-like simple data, the domain of the property: what a JSON text can denote -/
+def T.JsonLike (t : T) : Prop := t.pure .simple = true ∧ t.noNil = true
 
 /-! ## rendering (driver output) -/
 
@@ -216,6 +244,8 @@ mutual
     | .flt f x => f.tag "d" "D" ++ x
     | .str f s => f.tag "s" "S" ++ s
     | .big f s => f.tag "g" "G" ++ s
+    | .nilArr f => f.tag "x" "X"
+    | .nilObj f => f.tag "y" "Y"
     | .arr f xs => f.tag "[" "<" ++ T.renderList xs ++ f.tag "]" ">"
     | .obj f kvs => f.tag "{" "(" ++ T.renderKvs kvs ++ f.tag "}" ")"
   def T.renderList : List T → String
